@@ -54,6 +54,14 @@ def generate(tape, tier="quick"):
             ln = {"src": [pj, oj], "dst": [ci, len(keep) - 1]}
             if tape.chance(1, 5):
                 ln["scale"] = 2
+            if tape.chance(1, 4):
+                # time adapters see the double initial push of producers that start later than the composition
+                ln["chain"] = [tape.choice([{"kind": "next"}, {"kind": "linear"}, {"kind": "prev"}, {"kind": "step", "p": "1/2"},
+                                            {"kind": "delay_fixed", "d": 2}, {"kind": "delay_pull", "n": 1, "x": 0}])]
+                if tape.chance(1, 3):
+                    ln["chain"].append(tape.choice([{"kind": "delay_fixed", "d": 1}, {"kind": "linear"}]))
+                    if ln["chain"][0]["kind"] in ("delay_pull",) and ln["chain"][1]["kind"] == "delay_pull":
+                        ln["chain"].pop()
             links.append(ln)
         c["inputs"] = keep
         for k, i in enumerate(c["inputs"]):
